@@ -300,3 +300,6 @@ def run(chk):
     one_loop(chk)
     two_loop_f(chk)
     conditioning(chk)
+    # series branch of dxlog against the definition (the same obligation is part of C11)
+    from . import C11b
+    C11b.dxlog_series(chk)
